@@ -492,15 +492,27 @@ def segy_item(kind, bs, rate, nb, props, opts=None):
             t0_ms = E.fresh('t0_ms', -32768, 32767)
             dt_ms = E.fresh('dt_ms', 1, 65)
         if kind == '2d':
-            ntr = E.fresh('n_tr', max(2, (nb[0] - 1) * bs[1] + 1), min(nb[0] * bs[1], max(2, (nb[0] - 1) * bs[1]) + cap + 1))
+            ntr = E.fresh('n_tr', max(2, (nb[0] - 1) * bs[1] + 1), nb[0] * bs[1])
+            # enumerated: just above the last full group, and the exact multiple of the group size
+            if opts.get('dimsel') == 'top':
+                E.assume(ntr == nb[0] * bs[1])
+            elif opts.get('dimsel') == 'low':
+                E.assume(ntr <= max(2, (nb[0] - 1) * bs[1]) + cap + 1)
+            else:
+                E.assume(b_or(ntr <= max(2, (nb[0] - 1) * bs[1]) + cap + 1, ntr == nb[0] * bs[1]))
             n_s = E.fresh('n_s', max(2, (nb[1] - 1) * bs[2] + 1), nb[1] * bs[2])
             ntr = int(ntr)      # the converters build range() objects over the traces: enumerated within the stated cap
             model = shsegy.SegyModel('2d', n_s, fmt=fmt, ext=ext, tracecount=ntr, varying=varying, consts=consts,
                                      t0_ms=t0_ms, dt_ms=dt_ms)
             dims = (ntr, n_s)
         else:
-            n_il = E.fresh('n_il', max(2, (nb[0] - 1) * bs[0] + 1), min(nb[0] * bs[0], max(2, (nb[0] - 1) * bs[0]) + cap))
-            n_xl = E.fresh('n_xl', max(2, (nb[1] - 1) * bs[1] + 1), min(nb[1] * bs[1], max(2, (nb[1] - 1) * bs[1]) + cap))
+            n_il = E.fresh('n_il', max(2, (nb[0] - 1) * bs[0] + 1), nb[0] * bs[0])
+            n_xl = E.fresh('n_xl', max(2, (nb[1] - 1) * bs[1] + 1), nb[1] * bs[1])
+            if not opts.get('ilxl'):
+                # enumerated: just above the last full block and (when asked) the exact multiple of the block size
+                top = bool(opts.get('dimtop'))
+                E.assume(b_or(n_il <= max(2, (nb[0] - 1) * bs[0]) + cap, b_and(top, n_il == nb[0] * bs[0])))
+                E.assume(b_or(n_xl <= max(2, (nb[1] - 1) * bs[1]) + cap, b_and(top, n_xl == nb[1] * bs[1])))
             n_s = E.fresh('n_s', max(2, (nb[2] - 1) * bs[2] + 1), nb[2] * bs[2])
             if opts.get('ns_cap') is not None:
                 E.assume(n_s <= max(2, (nb[2] - 1) * bs[2]) + opts['ns_cap'])
@@ -590,7 +602,8 @@ def finish_segy(E, mm, fs, st, model, dims, bs, rate, props, opts, window, H):
         row = [read_field(st, 980 + 12 * i + 4 * j, '<i') for j in range(3)]
         if implied(b_and(row[1] == 0, row[2] == f)):
             stored.append(f)
-    if 'C01' in props or 'C09' in props:
+    part = opts.get('part')
+    if ('C01' in props or 'C09' in props) and part in (None, 'samples'):
         R = mm['read']
         with Quiet():
             r = R.SgzReader(shenv.ShimFile(st))
@@ -616,7 +629,7 @@ def finish_segy(E, mm, fs, st, model, dims, bs, rate, props, opts, window, H):
     win = None
     if window:
         win = (window['min_il'], window['max_il'], window['min_xl'], window['max_xl'])
-    if 'C04' in props or 'C09' in props or 'C11' in props:
+    if ('C04' in props or 'C09' in props or 'C11' in props) and part in (None, 'headers'):
         check_segy_headers(E, mm, st, model, dims, detection, label, H, win)
     if 'C05' in props:
         R = mm['read']
@@ -776,7 +789,12 @@ def items_for(prop, tier):
             [(l[0], l[1], nb) for l in valid_layouts_2d() for nb in ((2, 2), (3, 1), (1, 3)) if nb[1] * l[0][2] <= 2 ** 15]
         for bs, rate, nb in lays2:
             for o in (dict(fmt=1), dict(fmt=5)) if not quick else (dict(fmt=1),):
-                segy_cfgs.append(('2d', bs, rate, nb, o))
+                if prop == 'C09':
+                    for sel in ('low', 'top'):
+                        segy_cfgs.append(('2d', bs, rate, nb if sel == 'low' else (2, nb[1]), dict(o, part='samples', dimsel=sel, dimcap=0)))
+                        segy_cfgs.append(('2d', bs, rate, (2, 1), dict(o, part='headers', varying=(73, 21), dimcap=0, dimsel=sel)))
+                else:
+                    segy_cfgs.append(('2d', bs, rate, nb, o))
         for kind, bs, rate, nb, o in segy_cfgs:
             desc = 'segy-%s|%s|bs=%s|rate=%s|nb=%s|%s' % (kind, prop, 'x'.join(map(str, bs)), rate, 'x'.join(map(str, nb)),
                                                         ','.join('%s=%s' % kv for kv in sorted(o.items())))
